@@ -181,7 +181,8 @@ fn env_config(m: HashMap<String, String>, try_parsing: bool) -> Result<config::C
 
 /// cfg = [6, reader (0 typed | 1 lenient), what (0 PoolConfig | 1 Timeouts | 2 QueueMode),
 ///        serialisation (0 typed | 1 environment), src (0 tree = what the serialisation
-///        produced | 1 tree given in row 1 | 2 environment read with try_parsing)]
+///        produced | 1 tree given in row 1 | 2 environment read with try_parsing |
+///        3 what the serialisation produced minus the sections named by cfg[5])]
 /// rows in: 0 the value, 1 the tree (src = 1). Observations: 0 the serialised tree,
 /// 1 the deserialised value (0 | 1 value), 2 [JSON text round trip reproduces the value].
 pub fn run(cfg: &[Z], rows: &[Vec<Z>]) -> Result<(Vec<Z>, Vec<Vec<Z>>, Vec<Vec<Z>>), String> {
@@ -273,7 +274,26 @@ pub fn run(cfg: &[Z], rows: &[Vec<Z>]) -> Result<(Vec<Z>, Vec<Vec<Z>>, Vec<Vec<Z
         };
     }
     // ---- the tree that is read
-    let tree = if src == 1 { d_tree(&mut Cur::new(&rows[1]), 8) } else { ser_tree.clone() };
+    let tree = if src == 1 {
+        d_tree(&mut Cur::new(&rows[1]), 8)
+    } else if src == 3 {
+        // the serialised value with whole sections left out: cfg[5] = bit mask over the keys
+        // (PoolConfig: 1 timeouts, 2 queue_mode; Timeouts: 1 wait, 2 create, 4 recycle)
+        let mask = cfg.get(5).copied().unwrap_or(0);
+        let keys: &[(&[u8], Z)] = if what == 0 {
+            &[(b"timeouts", 1), (b"queue_mode", 2)]
+        } else {
+            &[(b"wait", 1), (b"create", 2), (b"recycle", 4)]
+        };
+        match ser_tree.clone() {
+            Tree::Map(m) => Tree::Map(
+                m.into_iter().filter(|(k, _)| !keys.iter().any(|(n, b)| k.as_slice() == *n && mask & b != 0)).collect(),
+            ),
+            t => t,
+        }
+    } else {
+        ser_tree.clone()
+    };
     if has_other(&tree) || has_other(&ser_tree) {
         return Err("tree outside the modelled language (float or array)".to_string());
     }
